@@ -49,12 +49,13 @@ class ScaleSpec(SeqSpec):
             for n, p in [(6, 2), (50, 3), (300, 4)]:
                 add({"kind": "do-overlap", "n": n, "p": p})
             add({"kind": "do-empty"})
-            add({"kind": "do-nested-last"})
+            add({"kind": "do-nested-last", "limit_s": 30})
         if "chans-merge" in self.kinds:
             for n in [255, 256, 257, 300] + ([600] if big else []):
                 add({"kind": "chans-merge", "n": n, "per": 2})
             for n in [0, 1, 2, 3, 4, 5, 9]:
                 add({"kind": "chans-merge-iface", "n": n})
+            add({"kind": "smerge-many", "n": 65537 if not big else 140000, "limit_s": 120})
             for n in [4, 7]:
                 add({"kind": "chans-merge-concurrent", "n": n, "rounds": 300 if big else 30})
         if "mapiter" in self.kinds:
@@ -96,6 +97,9 @@ class ScaleSpec(SeqSpec):
                 add({"kind": "pipe-trysend-storm", "rounds": int((3000 if big else 150) * f), "k": k, "cap": cap})
         if "pipe-idle-next" in self.kinds:
             add({"kind": "pipe-two-instances"})
+            add({"kind": "pipe-send-storm", "rounds": 2000 if big else 150, "k": 8, "cap": 1})
+            add({"kind": "pipe-send-storm", "rounds": 2000 if big else 150, "k": 6, "cap": 2})
+            add({"kind": "pipe-close-error-storm", "rounds": 400000 if big else 40000})
             add({"kind": "pipe-idle-next", "cap": 0, "hold_ms": hold})
             add({"kind": "pipe-idle-next", "cap": 2, "hold_ms": 40})
         return cases
